@@ -98,12 +98,12 @@ def W.spawn (w : W) (a : Nat) (name : Option String) (cap : Nat) (sup : Option N
   match w.actor? a with
   | some _ => ("dup", w)
   | none =>
+    -- `with_supervisor(&mailbox)` needs the supervisor's mailbox in the harness' hands
+    let sup := sup.bind fun s => (w.actor? s).bind fun r => if r.has && r.isSup then some s else none
     match name with
     | some n =>
       match Registry.reserve w.reg n with
-      | none =>
-        ("nametaken", { w with actors := w.actors ++
-          [{ id := a, st := St.init cap true, sc := sc, name := name, fut := .absent }] })
+      | none => ("nametaken", w)        -- `SpawnFuture::ready(Err(NameTaken))`: nothing was created
       | some reg =>
         ("pending", { w with reg := reg, actors := w.actors ++
           [{ id := a, st := St.init cap true, sc := sc, name := name, sup := sup, isSup := isSup }] })
